@@ -2064,6 +2064,8 @@ fn main() {
     let mut w = CaseWriter::new(&a.out, "Model.ToolLoop", "check_case", "model_obs", 60);
     // cases of Model.ToolLoopSse (the answers as bytes, decoded by C15's stream model inside the case)
     let mut wb = CaseWriter::new(&a.out.join("body"), "Model.ToolLoopSse", "check_case_b", "model_obs_b", 20).with_base(1_000_000);
+    // sized runs (several KiB of text per case): small files, a coqc process holds a whole file in memory
+    let mut wz = CaseWriter::new(&a.out.join("sized"), "Model.ToolLoop", "check_case", "model_obs", 10).with_base(2_000_000);
     let mut distinct = Distinct::default();
     let rt = tokio::runtime::Builder::new_multi_thread().worker_threads(4).enable_all().build().unwrap();
 
@@ -2325,7 +2327,7 @@ fn main() {
     let n_before_sized = loops.len();
     if !skip_loop {
         let mut plans = sized::plans(&mut r, &consts, a.tier == "thorough");
-        plans.truncate(900);
+        plans.truncate(1000);
         for (i, p) in plans.iter().enumerate() {
             loops.push(gen_sized(&mut r, p, i));
         }
@@ -2471,7 +2473,7 @@ fn main() {
             }
         }
         if !a.oracle_only() {
-            let id = w.push(coq_loop_case(c, &e));
+            let id = if c.payloads.is_empty() { w.push(coq_loop_case(c, &e)) } else { wz.push(coq_loop_case(c, &e)) };
             if res.case_index.len() < 6000 {
                 res.case_index.insert(id.to_string(), cj.clone());
             }
@@ -2497,8 +2499,9 @@ fn main() {
     }
     w.flush();
     wb.flush();
+    wz.flush();
     res.distinct_nontrivial = distinct.count();
-    res.case_files = w.files.iter().chain(wb.files.iter()).map(|p| p.display().to_string()).collect();
+    res.case_files = w.files.iter().chain(wb.files.iter()).chain(wz.files.iter()).map(|p| p.display().to_string()).collect();
     // keep the evidence small: one violation per class is enough, the rest is counted
     let mut per_class: BTreeMap<String, usize> = BTreeMap::new();
     res.oracle_violations.retain(|v| {
